@@ -24,7 +24,7 @@ ecc4c99 C10
 666537d C34 C10
 a01d2b5 C14
 2e67899 C15
-f0bff9b C17
+f0bff9b+ba78243 C17
 e88ed9d C19
 f3ff6ae C33
 c069399 C18
